@@ -14,11 +14,11 @@ import (
 // DataCfg parameterises the procedural data set.
 type DataCfg struct {
 	Seed     uint64 `json:"seed"`
-	PNull    int    `json:"pnull"`    // percent of nullable positions that are null
-	ListMax  int    `json:"list_max"` // list lengths 0..ListMax
-	Pool     int    `json:"pool"`     // ids per entity type
-	Hostile  bool   `json:"hostile"`  // strings with quotes / unicode / control chars
-	IDStyle  int    `json:"id_style"` // 0: T_n ; 1: T_n with ':' ; 2: with '#'
+	PNull    int    `json:"pnull"`     // percent of nullable positions that are null
+	ListMax  int    `json:"list_max"`  // list lengths 0..ListMax
+	Pool     int    `json:"pool"`      // ids per entity type
+	Hostile  bool   `json:"hostile"`   // strings with quotes / unicode / control chars
+	IDStyle  int    `json:"id_style"`  // 0: T_n ; 1: T_n with ':' ; 2: with '#'
 	FixedLen int    `json:"fixed_len"` // >0: every list has exactly this length
 }
 
